@@ -282,6 +282,15 @@ func (f File) Generate(inputWriter io.Writer, settings GenerateSettings) error {
 	}
 	settings.nextLength = new(int)
 	settings.isFirstTopLength = new(bool)
+	// f is a copy of the caller's File but shares its slices' backing arrays:
+	// clip the capacities so that appending imported definitions below copies
+	// instead of writing into the caller's arrays (a data race between
+	// concurrent Generate calls, and a change of the caller's File)
+	f.Structs = f.Structs[:len(f.Structs):len(f.Structs)]
+	f.Messages = f.Messages[:len(f.Messages):len(f.Messages)]
+	f.Enums = f.Enums[:len(f.Enums):len(f.Enums)]
+	f.Unions = f.Unions[:len(f.Unions):len(f.Unions)]
+	f.Consts = f.Consts[:len(f.Consts):len(f.Consts)]
 
 	if len(f.Imports) != 0 {
 		thisFilePath := f.FileName
